@@ -350,6 +350,9 @@ def isListWs (c : Char) : Bool := isInlineWs c || c = '\n'
 /-- characters that cannot start or follow an item of a list display, whatever comes after -/
 def isSurelyBad (c : Char) : Bool := c = '=' || c = ';' || c = '%' || c = '$' || c = '?' || c = '!'
 
+def isIdentStart (c : Char) : Bool := ('a' ≤ c && c ≤ 'z') || ('A' ≤ c && c ≤ 'Z') || c = '_'
+def isIdentChar (c : Char) : Bool := isIdentStart c || ('0' ≤ c && c ≤ '9')
+
 /-- items of a list display after `[`; `afterItem` = an item was just read (a comma or `]` must follow) -/
 def evalItems : Nat → Bool → Str → ListR
   | 0, _, _ => .unmodelled
@@ -393,6 +396,15 @@ def evalItems : Nat → Bool → Str → ListR
           | .valueError => .error
           | .unmodelled => .unmodelled
       else if c = ',' || isSurelyBad c then .error
+      else if isIdentStart c then
+        -- a name: `True`/`False`/`None` and string prefixes (`b'…'`, `r"…"`) are not transcribed; any other name makes
+        -- literal_eval refuse the expression ("malformed node or string"), or the parser before it
+        let ident := (c :: rest).takeWhile isIdentChar
+        let after := (c :: rest).dropWhile isIdentChar
+        if ident == "True".toList || ident == "False".toList || ident == "None".toList then .unmodelled
+        else match after with
+          | q :: _ => if isQuoteChar q then .unmodelled else .error
+          | [] => .error
       else .unmodelled
 
 /-- `literal_eval(value)` + `isinstance(l, list)` + `[str(i) for i in l]` for a value that starts with `[` -/
